@@ -61,16 +61,22 @@ type scenario struct {
 	// steps after which a writer outside the callers completes a whole compare-and-swap on a SECOND key
 	// ("kk", of which the callers' key "k" is a prefix): keys are independent, neither chain may notice
 	Other []int `json:"other_key_writes,omitempty"`
+	// in-memory Consul store only: after this many steps the store's index starts again from zero (what a
+	// restored snapshot does to a Consul server), while callers may be between their read and their write.
+	// The store was given 400 writes on a third key beforehand, so no index a caller holds can come round again
+	ResetAt int `json:"reset_index_at,omitempty"`
 }
 
 func (s scenario) String() string {
-	return fmt.Sprintf("backend=%s wrapper=%s precreate=%v kinds=%v plan=%v delete_at=%d other_key_writes=%v", s.Backend, s.Wrapper, s.Seed, s.Kinds, s.Plan, s.DeleteAt, s.Other)
+	return fmt.Sprintf("backend=%s wrapper=%s precreate=%v kinds=%v plan=%v delete_at=%d other_key_writes=%v reset_index_at=%d", s.Backend, s.Wrapper, s.Seed, s.Kinds, s.Plan, s.DeleteAt, s.Other, s.ResetAt)
 }
 
 type env struct {
+	consulC   *consul.Client // the store under test when it is the in-memory Consul store
 	client    kv.Client
 	secondary kv.Client // multi wrapper: the store the primary's writes are mirrored to
 	rival     *rivalStore
+	primaryName string
 	closers   []io.Closer
 	mkvs      []*memberlist.KV
 }
@@ -89,6 +95,9 @@ func (e *env) backend(name string) (kv.Client, error) {
 	case "consul":
 		c, closer := consul.NewInMemoryClient(ring.GetCodec(), log.NewNopLogger(), nil)
 		e.closers = append(e.closers, closer)
+		if e.consulC == nil && name == e.primaryName {
+			e.consulC = c
+		}
 		return c, nil
 	case "etcd":
 		c, closer := etcd.NewInMemoryClient(ring.GetCodec(), log.NewNopLogger())
@@ -108,7 +117,7 @@ func (e *env) backend(name string) (kv.Client, error) {
 }
 
 func newEnv(sc scenario) (*env, error) {
-	e := &env{}
+	e := &env{primaryName: sc.Backend}
 	c, err := e.backend(sc.Backend)
 	if err != nil {
 		return nil, err
@@ -209,6 +218,7 @@ type outcome struct {
 	rivals        int
 	deletes       int
 	others        int
+	resets        int
 }
 
 // execute runs the callers under the schedule: at each step the plan picks among "start a caller not
@@ -223,6 +233,18 @@ func execute(t *testing.T, sc scenario) (out outcome) {
 		b.Cleanup(e.close)
 		client := e.client
 		ctx := context.Background()
+		if sc.ResetAt > 0 && e.consulC != nil {
+			for i := 0; i < 400; i++ {
+				if err := e.consulC.CAS(ctx, "warm-up", func(interface{}) (interface{}, bool, error) {
+					d := ring.NewDesc()
+					d.Ingesters["w"] = ring.InstanceDesc{Timestamp: int64(i + 1)}
+					return d, true, nil
+				}); err != nil {
+					out.failure = fmt.Sprintf("warm-up write: %v", err)
+					return
+				}
+			}
+		}
 		if sc.Seed {
 			if err := client.CAS(ctx, "k", func(interface{}) (interface{}, bool, error) {
 				d := ring.NewDesc()
@@ -275,7 +297,8 @@ func execute(t *testing.T, sc scenario) (out outcome) {
 				var lastOut string
 				wrote := false
 				attempts := 0
-				err := client.CAS(ctx, "k", func(in interface{}) (interface{}, bool, error) {
+				cctx, cancel := context.WithCancel(ctx)
+				err := client.CAS(cctx, "k", func(in interface{}) (interface{}, bool, error) {
 					attempts++
 					p := &parkedCall{caller: c, op: o, in: counterOf(in), release: make(chan struct{})}
 					mu.Lock()
@@ -298,6 +321,10 @@ func execute(t *testing.T, sc scenario) (out outcome) {
 							d.Ingesters["scribble"] = ring.InstanceDesc{Addr: "leftover of an aborted attempt"}
 						}
 						return nil, true, fmt.Errorf("retry me")
+					case kind == "cancelInside":
+						// the caller's context ends while its function runs (a deadline, a shutdown); whatever the
+						// call then reports must be what happened to the stored value
+						cancel()
 					case kind == "incOnce" && attempts > 1:
 						// wrote on the first attempt, lost the race, and on the retry sees no need any more
 						return nil, false, nil
@@ -322,6 +349,7 @@ func execute(t *testing.T, sc scenario) (out outcome) {
 					mu.Unlock()
 					return d, true, nil
 				})
+				cancel()
 				mu.Lock()
 				if err == nil && wrote {
 					commits = append(commits, commit{c, o, lastIn, epoch})
@@ -492,6 +520,13 @@ func execute(t *testing.T, sc scenario) (out outcome) {
 					checkNow(fmt.Sprintf("after the write on the other key following step %d", at))
 				}
 			}
+			if sc.ResetAt > 0 && len(out.branching) == sc.ResetAt && e.consulC != nil && out.failure == "" {
+				if consul.VerifResetIndex(e.consulC) {
+					out.resets++
+					vx.Wait()
+					checkNow(fmt.Sprintf("after the index reset following step %d", len(out.branching)))
+				}
+			}
 			if sc.DeleteAt > 0 && len(out.branching) == sc.DeleteAt && out.failure == "" {
 				// the key is deleted and its deletion marker expires and is purged; callers that read the key
 				// before must not succeed with what they computed from the deleted value
@@ -629,7 +664,7 @@ func TestCASSchedulesRapid(t *testing.T) {
 		for c := 0; c < nCallers; c++ {
 			var ks []string
 			for o := 0; o < nOps; o++ {
-				ks = append(ks, rapid.SampledFrom([]string{"inc", "inc", "inc", "inc", "decline", "fail", "failretry", "incOnce", "incOnce", "scribbleRetry"}).Draw(rt, "kind"))
+				ks = append(ks, rapid.SampledFrom([]string{"inc", "inc", "inc", "inc", "decline", "fail", "failretry", "incOnce", "incOnce", "scribbleRetry", "cancelInside"}).Draw(rt, "kind"))
 			}
 			sc.Kinds = append(sc.Kinds, ks)
 		}
@@ -639,6 +674,11 @@ func TestCASSchedulesRapid(t *testing.T) {
 				sc.DeleteAt = d
 			}
 		}
+		if sc.Backend == "consul" {
+			if d := rapid.IntRange(-8, 12).Draw(rt, "resetIndexAfterStep"); d > 0 {
+				sc.ResetAt = d
+			}
+		}
 		if rapid.IntRange(0, 2).Draw(rt, "otherKey") == 0 {
 			sc.Other = rapid.SliceOfN(rapid.IntRange(1, 16), 1, 4).Draw(rt, "otherKeyWrites")
 		}
@@ -646,6 +686,9 @@ func TestCASSchedulesRapid(t *testing.T) {
 		vx.Eval(1)
 		if out.others > 0 {
 			vx.Class("schedules_with_writes_on_a_second_key_in_between", 1)
+		}
+		if out.resets > 0 {
+			vx.Class("schedules_with_the_consul_index_reset_in_between", 1)
 		}
 		vx.Class("backend_"+sc.Backend, 1)
 		vx.Class("wrapper_"+sc.Wrapper, 1)
